@@ -718,8 +718,70 @@ func (r *reducer) ddmin(parts []string, test func(string) bool) []string {
 	return parts
 }
 
+// brackets removes or unwraps balanced bracket groups, which chunk removal cannot do: the group
+// from an opening bracket to its partner is deleted, replaced by a literal, or loses its brackets.
+func (r *reducer) brackets(text string, test func(string) bool) string {
+	for progress := true; progress; {
+		progress = false
+		parts := units(text, "token")
+		if len(parts) < 3 {
+			return text
+		}
+		partner := map[int]int{}
+		var stack []int
+		for i, p := range parts {
+			switch p {
+			case "(", "[", "{":
+				stack = append(stack, i)
+			case ")", "]", "}":
+				if n := len(stack); n > 0 && strings.Index("([{", parts[stack[n-1]]) == strings.Index(")]}", p) {
+					partner[stack[n-1]] = i
+					stack = stack[:n-1]
+				}
+			}
+		}
+		opens := make([]int, 0, len(partner))
+		for i := range partner {
+			opens = append(opens, i)
+		}
+		sort.Ints(opens)
+		join := func(a, mid, b []string) string {
+			return strings.Join(a, "") + strings.Join(mid, "") + strings.Join(b, "")
+		}
+	scan:
+		for _, i := range opens {
+			j := partner[i]
+			cands := []string{
+				join(parts[:i], nil, parts[j+1:]),
+				join(parts[:i], []string{"1"}, parts[j+1:]),
+				join(parts[:i], []string{parts[i], parts[j]}, parts[j+1:]),
+				join(parts[:i], parts[i+1:j], parts[j+1:]),
+			}
+			for _, cand := range cands {
+				if len(cand) < len(text) && test(cand) {
+					text = cand
+					progress = true
+					break scan
+				}
+				if r.probes >= r.maxProbe || time.Now().After(r.deadline) {
+					return text
+				}
+			}
+		}
+	}
+	return text
+}
+
 func (r *reducer) field(c Case, get func(*Case) *string) Case {
-	for _, gran := range []string{"line", "token", "rune"} {
+	for _, gran := range []string{"line", "brackets", "token", "brackets", "rune"} {
+		if gran == "brackets" {
+			*get(&c) = r.brackets(*get(&c), func(s string) bool {
+				cand := c
+				*get(&cand) = s
+				return r.still(cand)
+			})
+			continue
+		}
 		cur := *get(&c)
 		if gran == "rune" && utf8.RuneCountInString(cur) > 400 {
 			continue
